@@ -304,6 +304,12 @@ pub fn run(ctx: &mut Ctx) {
             let ids: Vec<u32> = reqs.iter().map(|q| *q.apply(&mut m)).collect();
             // the same requests again: must return the same ids and change nothing
             let ids2: Vec<u32> = reqs.iter().map(|q| *q.apply(&mut m)).collect();
+            // the returned ids are used (as the type of an imported function), so that they reach the encoded bytes
+            for (k, q) in reqs.iter().enumerate() {
+                if matches!(q, Req::Func { .. }) {
+                    m.add_import_func("use".to_string(), format!("t{k}"), TypeID(ids[k]));
+                }
+            }
             let out = m.encode();
             (ids, ids2, out)
         });
